@@ -197,6 +197,8 @@ func address(m msg, port, closed int) string {
 		return `{"type":"http","data":` + q(u("http", port, "200")) + `}`
 	case "data-null":
 		return `{"type":"http","data":null}`
+	case "url-absent":
+		return `{"type":"http","data":{"headers":{"X-Other":"1"}}}`
 	case "url-empty":
 		return `{"type":"http","data":{"url":""}}`
 	case "url-invalid":
